@@ -21,7 +21,8 @@ import threading
 import vf
 
 WITNESSES = os.path.join(vf.VERIF, "replays", "C20", "witnesses.ndjson")
-TOGGLES = ["MapReversed", "FailSpills", "DropOverflow", "MergeBytewise", "DoubleErrSends", "ScanOpenErrNoClose"]
+TOGGLES = ["MapReversed", "FailSpills", "DropOverflow", "MergeBytewise", "DoubleErrSends", "ScanOpenErrNoClose",
+           "KeepPartial", "ResendWrites"]
 
 
 # ------------------------------------------------------------------------------------------ helpers
@@ -68,6 +69,8 @@ def _describe(b):
                                         "@%d" % t["sh"] if t["sh"] else "*"))
         elif a in ("Respond", "Fail"):
             parts.append("%s(%d%s)" % (a, s["s"], s["k"]))
+        elif a == "Break":
+            parts.append("Break(%d%s after %d)" % (s["s"], s["k"], s.get("n", 0)))
         elif a == "SEmit":
             parts.append("emit(%d,%d,%s)" % (s["c"], s["s"], "/".join(map(str, s["key"]))))
         elif a == "SEnd":
@@ -198,6 +201,8 @@ def _short(line):
         return "Issue(call %d: %s)" % (e["c"], e["t"])
     if a in ("Respond", "Fail"):
         return "%s(shard %d/%s)" % (a, e["s"], e["k"])
+    if a == "Break":
+        return "Break(shard %d/%s: retriable error after %d response(s))" % (e["s"], e["k"], e.get("n", 0))
     if a == "SEnd":
         return "SEnd(call %d, shard %d, %s)" % (e["c"], e["s"], e["how"])
     if a == "Closed":
@@ -285,8 +290,9 @@ def run(ctx):
     rnd = random.Random(ctx.seed)
     ctx.assumptions += [
         "one application goroutine issues the calls (the order of calls handed to a batcher is the issue order)",
-        "servers answer every request of a write stream in order or break the stream (no retriable status is injected; "
-        "request time-outs and shard re-assignment are not exercised)",
+        "servers answer every request of a write stream in order or break the stream; retriable failures are "
+        "codes.Unavailable after the request was received (reads: after a streamed prefix); request time-outs and "
+        "shard re-assignment are not exercised",
         "shards hold disjoint key sets and return their records sorted (primary-key scans only)",
         "callbacks of one batch are modelled as one atomic step",
         "fake leaders are reached over unix sockets; a dead leader is an address nobody listens on",
@@ -311,7 +317,8 @@ def run(ctx):
     h = Harness(ctx, built["bin"])
 
     # 2. spec -> code
-    step_cfgs = ["cb-replay-write-steps.cfg", "cb-replay-read-steps.cfg", "cb-replay-stream-steps.cfg"]
+    step_cfgs = ["cb-replay-write-steps.cfg", "cb-replay-read-steps.cfg", "cb-replay-stream-steps.cfg",
+                 "cb-replay-retry-steps.cfg"]
     nruns = 300 if quick else 6000
 
     def steps(cfg):
@@ -325,14 +332,15 @@ def run(ctx):
     total = sum(len(x) for x in exported)
     if min(len(x) for x in exported) == 0:
         raise vf.Inconclusive("TLC exported no behaviours: %s" % [len(x) for x in exported])
-    cap = 3000 if quick else 16000          # per family
+    cap = 2500 if quick else 14000          # per family
+    nfam = len(step_cfgs)
     chosen = []
-    for fam in exported[:3]:
+    for fam in exported[:nfam]:
         chosen += fam if len(fam) <= cap else rnd.sample(fam, cap)
-    chosen += exported[3]
+    chosen += exported[nfam]
     witnesses = [l for l in open(WITNESSES).read().splitlines() if l.strip()] if os.path.exists(WITNESSES) else []
     ctx.log("exported %d transition behaviours + %d runs; replaying %d of them + %d witness executions"
-            % (total - len(exported[3]), len(exported[3]), len(chosen), len(witnesses)))
+            % (total - len(exported[nfam]), len(exported[nfam]), len(chosen), len(witnesses)))
     rnd.shuffle(chosen)
     nproc = 4
     chunks = [chosen[i::nproc] for i in range(nproc)] + ([witnesses] if witnesses else [])
@@ -429,11 +437,11 @@ def run(ctx):
     if not quick:
         def mutant(tog):
             fam = {"MapReversed": "write", "FailSpills": "write", "DropOverflow": "write", "MergeBytewise": "stream",
-                   "DoubleErrSends": "read", "ScanOpenErrNoClose": "stream"}[tog]
+                   "DoubleErrSends": "read", "ScanOpenErrNoClose": "stream", "KeepPartial": "read2", "ResendWrites": "write"}[tog]
             txt = open(os.path.join(vf.SPEC, "cfg", "cb-%s-quick.cfg" % fam)).read().replace("%s = FALSE" % tog, "%s = TRUE" % tog)
             p = os.path.join(ctx.sub("mut"), "cb-mutant-%s.cfg" % tog)
             open(p, "w").write(txt)
-            return ctx.tlc("ClientBatchMC", p, workers=3, label="mutant-" + tog, allow_violation=True, heap="2g")
+            return ctx.tlc("ClientBatchMC", p, workers=2, label="mutant-" + tog, allow_violation=True, heap="2g")
         ms = _parallel([(lambda t=t: mutant(t)) for t in TOGGLES])
         missed = [t for t, r in zip(TOGGLES, ms) if not r.violated]
         ctx.notes["spec_mutants_refuted"] = {t: r.violated for t, r in zip(TOGGLES, ms)}
